@@ -112,11 +112,20 @@ def lifecycle_descs(tier, seed, hib_values=(False, True), objs=("twofunnel", "pl
         out.append(("bounded", dict(engines=list(eng), gens=1 + j % 2, Mh=4, hib=bool(j % 2), seed=s + j, choices="GLS", lsc=[None] + [{"kind": "metaepoch", "m": 2}] * (len(eng) - 1),
                                     gsc={"kind": "horizon"}, maximize=bool(j % 2), obj=("twofunnel", "sphere_in", "plateau")[j % 3], box=box, mwea_group=6 if box == "B_asym" else 4,
                                     sprout={"kind": "scripted", "L": 2, "default": 1})))
+    # children sampled with spread 0 (a degenerate initial population: every member is the seed itself)
+    for j, eng in enumerate([("SEA", "DE"), ("DE", "SHADE", "SEA"), ("LHS", "DEd"), ("GA", "SEAX", "MWEA")]):
+        out.append(("bounded", dict(engines=list(eng), gens=1 + j % 2, Mh=4, hib=bool(j % 2), seed=s + j, choices="GLS", lsc=[None] + [{"kind": "metaepoch", "m": 2}] * (len(eng) - 1),
+                                    gsc={"kind": "horizon"}, maximize=bool(j % 2), obj=("twofunnel", "sphere_in")[j % 2], box=("B_asym", "B_sym")[j % 2], std_factor=0.0,
+                                    sprout={"kind": "scripted", "L": 2, "default": 1})))
     # middle-level demes that stop when all their children have stopped, several siblings per level
     for j, eng in enumerate([("SEA", "DE", "CMAf"), ("DE", "SEA", "SHADE"), ("LHS", "GA", "DE")]):
         for hib in hib_values:
             out.append(("bounded", dict(engines=list(eng), gens=1, Mh=6, hib=hib, seed=s + j, choices="GLS", lsc=[None, "allchildren", {"kind": "metaepoch", "m": 1 + j % 2}],
                                         gsc={"kind": "horizon"}, maximize=bool(j % 2), obj="twofunnel", sprout={"kind": "scripted", "L": 2, "default": 1})))
+    # every other world: the (user-written) stop conditions answer numpy.bool_ / int instead of bool
+    for k, (_, d) in enumerate(out):
+        if k % 2:
+            d["verdict_type"] = ("npbool", "int")[(k // 2) % 2]
     return out
 
 
